@@ -45,7 +45,7 @@ def main(argv=None):
         import warnings
 
         warnings.simplefilter("ignore")
-        from .engine import generate_and_run
+        from .engine import execute as generate_and_run
 
         prop = runner.load_prop(a.prop)
         seed = runner.run_seed(a.seed, a.prop, a.one)
